@@ -353,7 +353,13 @@ def build_hint(h, env=None):
 def build_obj(o, env=None):
     env = env or _DEFAULT_ENV
     k = o['o']
-    if k in ('int', 'str', 'float', 'bool'):
+    if k == 'str':
+        # a *fresh* string object, equal but (beyond one character) not identical to the one a Literal[...] hint was
+        # built from: conformance to Literal is equality (PEP 586), never identity
+        return ''.join(list(o['v']))
+    if k == 'int':
+        return int(str(o['v']))
+    if k in ('float', 'bool'):
         return o['v']
     if k == 'none':
         return None
@@ -742,7 +748,7 @@ VALIDATORS = [
     {'v': 'or', 'a': [{'v': 'iseq', 'x': 0}, {'v': 'is', 'f': 'pos'}]},
 ]
 
-LITERAL_POOL = [0, 1, 2, -1, 'a', 'b', '', True, False, None, {'b': 'x'}]
+LITERAL_POOL = [0, 1, 2, -1, 'a', 'b', '', True, False, None, {'b': 'x'}, 1000, -300, 2 ** 40, 'ab', 'hello world', {'b': 'xyz'}]
 
 
 def gen_hint(rng, depth=3, hashable=False, families=None, leafy=0.3):
